@@ -232,8 +232,18 @@ impl XmlReader {
             .children()
             .find(|n| n.tag_name().name() == "schema")
             .ok_or(WriterError::SchemaNotFound)?;
-        Self::read_xsd(schema, files, doc)?;
-        Ok(())
+
+        // the inline schema has a target namespace of its own; messages, port types and bindings that follow belong to
+        // the namespace of the definitions element again
+        let definitions_namespace = doc.current_target_namespace.clone();
+        if let Some(target_namespace) = schema.attribute("targetNamespace") {
+            doc.switch_to_target_namespace(target_namespace);
+        }
+        let result = Self::read_xsd(schema, files, doc);
+        if let Some(namespace) = definitions_namespace {
+            doc.switch_to_target_namespace(&namespace.namespace);
+        }
+        result
     }
 
     fn read_xsd<'n>(node: Node<'n, 'n>, files: &Files, doc: &mut RustDocument) -> WriterResult<()> {
